@@ -126,6 +126,11 @@ impl Cache {
         self.procs.remove(pid);
     }
 
+    #[cfg(feature = "verif")]
+    pub fn verif_uncache(&self, pid: &str) {
+        self.procs.remove(pid);
+    }
+
     fn get_proc(&self, pid: &str) -> Option<Arc<Process>> {
         self.procs.get(pid)
     }
